@@ -87,12 +87,14 @@ claim("C07", "DESIGN.md §5 C07",
       "the objective equals the summed move costs plus per-move surcharges; the strict constructor establishes (and later calls keep) the strict arc rule, under which every walk meets all time windows; the operational decoder (sort + pops) returns the walks. "
       "Data, decoding and objective are compared with the code on every walk assignment of generated instances; all 2^n vectors for n <= 13.",
       "L >= 3, at least one node, depot self-arc present, depot window start >= 0 and self-arc time 0 for the strict-timing theorem.")
-claim("C08", "DESIGN.md §5 C08",
-      "Composition of the C04-C07 theorems (exact penalty; arc/sequence/path representation theorems) + exhaustive optimisation of the four real models against an independent route-partition optimiser",
-      "The relations between optima follow from the proved representation theorems (path cover = route partitions over the pool, arc feasible sets = grid route sets, sequence feasible sets = walks, default-penalty QUBO minima = constrained optima) through a generic embedding lemma; "
-      "the end-to-end statement 'three optima coincide on a complete grid / all routes' is NOT proved as one theorem (partial) and is decided on every run by exhaustive search: constrained optima and QUBO minima of the real path (all valid routes), arc (complete integer grid), strict and non-strict sequence models "
-      "are compared with a subset-DP optimiser over independently enumerated valid routes.",
-      "Small instances (<= 3 customers, n <= 18); capacity not binding.")
+claim("C08", "DESIGN.md §5 C08, §11",
+      "Lean 4 composition theorems: path-based solutions = partitions into pool routes (all routes => reference), arc-based on a complete grid = reference partitions (both directions, via the decoder and representability theorems), non-strict sequence <= reference, strict sequence >= reference, default-penalty QUBO minima = constrained optima (C04) + exhaustive optimisation of the four real models against an independent optimiser",
+      "Proved on the model, cost-preservingly: path-based feasible vectors are exactly the partitions into pool routes, so with all valid routes enumerated the achievable costs are those of the reference problem; "
+      "arc-based on a complete grid (capacity not binding, depot window opening exactly at 0, no depot self-arc, positive customer-to-customer times): achievable costs = costs of reference partitions (the original statement without 'depot window opens at 0' is refuted in Lean); "
+      "every reference partition with <= V routes of <= L stops is a non-strict walk assignment of equal cost; every strict walk assignment is a reference partition of equal cost. Equal / ordered optima and QUBO minima follow with C04. "
+      "The four real models are optimised exhaustively on every run (constrained optima and default-penalty QUBO minima) and compared with a subset-DP optimiser over independently enumerated valid routes.",
+      "Small instances (<= 3 customers, n <= 18) for the exhaustive comparison; theorems are unbounded.")
+
 claim("C09", "DESIGN.md §5 C09, §11",
       "Lean 4 soundness theorems for the operational models of all three construction heuristics (fold invariants -> walks / exact cover / depot routes -> representation theorems of C05-C07), totality of the path-based one, QUBO-value corollaries + correspondence of the heuristics (outcome, graph, vehicles/pool, solution) + oracle on every normal return",
       "Proved: whenever the sequence-, path- or arc-based make_feasible (as modelled operationally, incl. the repaired raise-on-miss / exit-arc / fresh-name rules) returns normally, the stored vector has length n, is 0/1 and satisfies every linear and quadratic constraint of the RESULTING instance; "
